@@ -45,6 +45,8 @@ def _other_iteration(f):
             return True
         if isinstance(n, ast.Call) and isinstance(n.func, ast.Name) and n.func.id in ("iter", "next", "map", "filter"):
             return True
+        if isinstance(n, ast.For) and isinstance(n.iter, ast.Call) and isinstance(n.iter.func, ast.Name) and n.iter.func.id in ("enumerate", "zip", "reversed", "range", "sorted", "list", "tuple"):
+            return True         # for i, x in enumerate(self.txs_in, 1): the elements are walked, under another header
     return False
 
 
@@ -202,8 +204,12 @@ def c20_2(ctx):
             if not ({"test", "get"} & kinds) or not ({"add", "subscript", "append", "setdefault"} & kinds):
                 continue
             found = True
+            # a container chosen per input by one field (refs.setdefault(tx_in.previous_hash, set())) and keyed by the other holds
+            # both: the fields that select the container count with the fields of the key
+            sdefs = df.single_defs(lp)
+            sel = df.attrs_of(sdefs[c], v) if c in sdefs else set()
             for k, kind, node in ks:
-                fields = df.attrs_of(k, v)
+                fields = df.attrs_of(df.expand(k, sdefs), v) | sel
                 ctx.check({"previous_hash", "previous_index"} <= fields, "dup-key:%s" % kind, ctx.where(f, node),
                           "Tx._check_txs_in: duplicate detection uses key `%s` (%s of %s) which does not contain both previous_hash and previous_index: two inputs spending the same outpoint are not always recognised"
                           % (norm(k), kind, c), what="dup-key:%s:%s" % (kind, norm(k)), sample={"container": c, "key": norm(k), "use": kind})
